@@ -324,8 +324,13 @@ bool Xml::Private::parse(const char* data, Element& element)
         pos.pos = end + 2;
         break;
       }
-      pos.pos = *end == '?' ? end + 1 : end; // a line break is left to skipSpace, which counts it
-      skipSpace();
+      pos.pos = end + 1; // the instruction goes on: nothing inside it is white space or a comment
+      if(*end == '?')
+        continue;
+      if(*end == '\r' && *pos.pos == '\n')
+        ++pos.pos;
+      ++pos.line;
+      pos.lineStart = pos.pos;
     }
     skipSpace();
   }
